@@ -76,7 +76,8 @@ def judgeRename (pre post : List (RPath × Entry)) (src dst : RPath) (res : Res)
     let others := pre.any fun x => !under src x.1 && !image x.1 && lookup x.1 post != some x.2
     let invented := post.any fun x => !image x.1 && (lookup x.1 pre).isNone && !under x.1 dst
     if under dst src then
-      -- onto an ancestor of the source: the images of the subtree overlap the subtree itself
+      -- onto an ancestor of the source: the images of the subtree overlap the subtree itself (known defect family:
+      -- colliding names are overwritten with stale listed copies or deleted as "the old entry")
       (if lost || remains || others || invented then ["rename/onto-ancestor-loses-entries"] else [])
     else
     (if lost then ["rename/subtree-entry-lost"] else [])
